@@ -496,6 +496,88 @@ def do_call(rig, op):
     return r, None, reprok
 
 
+# ------------------------------------------------------------------ reader framing (lines against block boundaries)
+class _FixedWidthTime(object):
+    """stands in for the `time` module inside foolscap.logging.log / incident while a framing history is written:
+    time() has a repr of constant width, so a line's length depends on the event alone; everything else is the real module"""
+
+    def __init__(self, real):
+        self._real = real
+
+    def time(self):
+        return 1700000000.5
+
+    def __getattr__(self, name):
+        return getattr(self._real, name)
+
+
+class fixed_width_time(object):
+    def __enter__(self):
+        self.saved = (log.time, incident.time)
+        log.time = incident.time = _FixedWidthTime(self.saved[0])
+
+    def __exit__(self, *a):
+        log.time, incident.time = self.saved
+
+
+def raw_content(path):
+    """the decompressed bytes of a flogfile, read without foolscap"""
+    if path.endswith(".bz2"):
+        import bz2
+        with bz2.BZ2File(path, "r") as f:
+            return f.read()
+    with open(path, "rb") as f:
+        return f.read()
+
+
+def write_framing_history(name, writer, pads, trigger_at=None):
+    """n = len(pads) events e<i> (message padded with pads[i] ASCII characters) through the real logger into real writers
+    -> ({label: path}, events as an immediate observer saw them).
+       writer "logfile":  a LogFileObserver on a plain file and one on a .bz2 file
+       writer "incident": setLogDir + reporter; trigger_at=None: NonTrailingIncidentReporter, the trigger follows the last
+                          event; trigger_at=k: IncidentReporter, the trigger follows event k-1, the rest are trailing events"""
+    setup_clock()
+    d = fresh_dir(name)
+    L = log.FoolscapLogger()
+    seen = []
+    L.addImmediateObserver(seen.append)
+    n = len(pads)
+    paths = {}
+    with fixed_width_time():
+        if writer == "logfile":
+            obs = []
+            for label, fn in (("plain", "framing.flog"), ("bz2", "framing.flog.bz2")):
+                paths[label] = os.path.join(d, fn)
+                ob = log.LogFileObserver(paths[label], level=0)
+                L.addObserver(ob.msg)
+                obs.append(ob)
+        else:
+            incdir = os.path.join(d, "incidents")
+            L.set_buffer_size(log.OPERATIONAL, n + 10, "framing")
+            L.setIncidentReporterFactory(incident.NonTrailingIncidentReporter if trigger_at is None else incident.IncidentReporter)
+            L.setLogDir(incdir)
+        for i in range(n):
+            if trigger_at == i:
+                L.msg("framing trigger", cid=-1, level=log.WEIRD)
+            # (text a reader might take for the end of a line, escaped by the writers: CR, VT, FF, FS..RS, NEL, LS, PS)
+            L.msg("e%04d \u00e9\r\x0b\x0c\x1c\x1e\x85\u2028\u2029 %s" % (i, "x" * pads[i]), cid=i, level=log.OPERATIONAL, facility="framing")
+            if i % 64 == 63:
+                E.turn()
+        if writer == "incident" and trigger_at is None:
+            L.msg("framing trigger", cid=-1, level=log.WEIRD)
+        E.turn()
+        if writer == "incident":
+            E.clock.advance((incident.IncidentReporter.TRAILING_DELAY or 5) + 1)
+            E.turn()
+            for f in sorted(os.listdir(incdir)):
+                if f.endswith(".flog.bz2"):
+                    paths["incident"] = os.path.join(incdir, f)
+        else:
+            for ob in obs:
+                ob._stop()
+    return paths, seen
+
+
 # ------------------------------------------------------------------ Subscription rig
 class FakeObserver(object):
     def __init__(self):
